@@ -1,11 +1,11 @@
 CONSTANTS
-  Names <- MCNames
-  MaxNodes = 5
+  Names <- MCNames3
+  MaxNodes = 4
   AllowDangling = FALSE
   AllowCycles = TRUE
   CheckSkips = {1}
   FullUpTo = 0
-  OnlyCyclic = FALSE
+  OnlyCyclic = TRUE
   MinNodes = 4
 INIT Init
 NEXT Next
